@@ -339,6 +339,9 @@ func TestCheck(t *testing.T) {
 			manyConnections(t, rep, n)
 		}
 	}
+	if 2%of == shard {
+		twoListeners(t, rep)
+	}
 	for _, v := range variants {
 		e := &mc.Explorer{Bound: bound, Shard: shard, Of: of, Deadline: deadline}
 		func() {
